@@ -170,6 +170,8 @@ func (b *OutboundBreaker) Do(f func() error) (bool, error) {
 	closed := total < b.limit
 	// log.Printf("OutboundBreaker total %d %v", total, closed)
 	if closed {
+		// The hit is recorded at the start of the first element.
+		b.updated = now
 		b.counts[0]++
 	}
 	b.Unlock()
@@ -254,6 +256,13 @@ func (b *OutboundBreaker) slide(now time.Time) {
 	ns := now.Sub(b.updated).Nanoseconds()
 	resolution := b.interval.Nanoseconds() / int64(b.ticks)
 	ticks := int(ns / int64(resolution))
+	if ticks < 1 {
+		// Less than one tick since the last slide.  Leave
+		// 'updated' alone so that the elapsed time accumulates;
+		// otherwise a breaker polled more often than once per
+		// tick would never slide at all.
+		return
+	}
 	if len(b.counts) < ticks {
 		ticks = len(b.counts)
 	}
